@@ -10,6 +10,7 @@ From Coq Require Strings.String.
 From NextestModel Require Import Base.Tac Proofs.BridgeTac.
 From NextestModel Require gen.GenGlue.
 From NextestModel Require Base.Str Model.Junit.
+From NextestModel Require Model.Dispatcher Model.Broadcast Proofs.Broadcast.
 From NextestModel Require Model.Filter Model.FutureQueue Model.Unit Model.Run Model.CliRun Model.ExecuteStream Proofs.ExecuteStream.
 Import ListNotations.
 Open Scope N_scope.
@@ -17,6 +18,9 @@ Open Scope N_scope.
 Module G := NextestModel.gen.GenGlue.Glue.
 Module MJ := NextestModel.Model.Junit.
 Module MFl := NextestModel.Model.Filter.
+Module MD := NextestModel.Model.Dispatcher.
+Module MBc := NextestModel.Model.Broadcast.
+Module PBc := NextestModel.Proofs.Broadcast.
 Module ME := NextestModel.Model.ExecuteStream.
 Module PE := NextestModel.Proofs.ExecuteStream.
 Module MRun := NextestModel.Model.Run.
@@ -318,4 +322,76 @@ Lemma gen_execute_item_is_model :
 Proof.
   intros rt nc l it H. destruct (PE.stream_weight_uncapped rt nc l it H) as (W & Gp & _).
   rewrite gen_execute_weight_is_model, gen_execute_group_is_model. split; assumption.
+Qed.
+
+(* ---------------------------------------------------------------- the dispatcher's run loop (Model/Dispatcher.v, Model/Broadcast.v, C10 / C11 / C12) *)
+(* == block conv_dispatch == *)
+Definition shutdown_event_to_model (e : G.ShutdownEvent) : MD.shutdown_event :=
+  match e with
+  | G.ShutdownEvent_Hangup => MD.Hangup
+  | G.ShutdownEvent_Term => MD.Term
+  | G.ShutdownEvent_Quit => MD.Quit
+  | G.ShutdownEvent_Interrupt => MD.SInterrupt
+  end.
+Definition shutdown_req_to_model (r : G.ShutdownRequest) : MD.shutdown_req :=
+  match r with
+  | G.ShutdownRequest_Once e => MD.Once (shutdown_event_to_model e)
+  | G.ShutdownRequest_Twice => MD.Twice
+  end.
+Definition cancel_event_to_model (c : G.CancelEvent) : MD.cancel_event :=
+  match c with
+  | G.CancelEvent_Report => MD.CeReport
+  | G.CancelEvent_TestFailure => MD.CeTestFailure
+  | G.CancelEvent_Signal r => MD.CeSignal (shutdown_req_to_model r)
+  end.
+(* RunUnitRequest, restricted to the variants without a reply channel (Stop and Query carry one) *)
+Definition request_to_model (r : G.RunUnitRequest) : MD.broadcast :=
+  match r with
+  | G.RunUnitRequest_OtherCancel => MD.BOtherCancel
+  | G.RunUnitRequest_Signal (G.SignalRequest_Shutdown q) => MD.BShutdown (shutdown_req_to_model q)
+  | G.RunUnitRequest_Signal G.SignalRequest_Continue => MD.BContinue
+  end.
+
+(* == block run_cancel_broadcasts (needs conv_dispatch) == *)
+(* the arm of DispatcherContext::run that acts on HandleEventResponse::Cancel: exactly one broadcast, the one the model's
+   [broadcast_of] names -- OtherCancel for a reporter error and for a test / setup-script failure, Shutdown(req) for a
+   signal *)
+Lemma gen_run_cancel_broadcasts_is_model :
+  forall c,
+    map request_to_model (G.run_cancel_broadcasts c) =
+    match MD.broadcast_of (MD.RCancel (cancel_event_to_model c)) with Some b => [b] | None => [] end.
+Proof. bridge. Qed.
+
+(* == block broadcast_request (needs conv_dispatch) == *)
+(* the context as broadcast_request sees it: whether sending on each running unit's channel fails is input data *)
+Definition script_view (u : MBc.unit_chan) : G.ContextSetupScript := G.mk_ContextSetupScript (negb (MBc.u_open u)).
+Definition test_view (u : MBc.unit_chan) : N * G.ContextTestInstance :=
+  (MBc.u_id u, G.mk_ContextTestInstance (negb (MBc.u_open u))).
+Definition ctx_view (script : option MBc.unit_chan) (tests : list MBc.unit_chan) : G.DispatcherContext :=
+  G.mk_DispatcherContext (option_map script_view script) (map test_view tests).
+Ltac hide_folds :=
+  repeat match goal with
+         | |- context [List.fold_left ?f ?l ?a] => generalize (List.fold_left f l a); intro
+         end.
+Lemma gen_broadcast_request_snoc :
+  forall script tests u req,
+    G.DispatcherContext_broadcast_request (ctx_view script (tests ++ [u])) req =
+    G.DispatcherContext_broadcast_request (ctx_view script tests) req + (if MBc.u_open u then 1 else 0).
+Proof.
+  intros script tests u req. unfold G.DispatcherContext_broadcast_request, ctx_view.
+  cbn [G.DispatcherContext_running_tests G.DispatcherContext_running_setup_script].
+  rewrite map_app, fold_left_app. cbn [map List.fold_left test_view].
+  hide_folds. destruct u as [id op]. destruct op, script as [[sid sop]|]; try destruct sop; bridge.
+Qed.
+Lemma gen_broadcast_request_is_model :
+  forall script tests req,
+    G.DispatcherContext_broadcast_request (ctx_view script tests) req =
+    MBc.delivered_count (MBc.running_units script tests).
+Proof.
+  intros script tests req. induction tests as [|u r IH] using rev_ind.
+  - destruct script as [[sid sop]|]; [destruct sop|]; vm_compute; reflexivity.
+  - rewrite gen_broadcast_request_snoc, IH.
+    replace (MBc.running_units script (r ++ [u])) with (MBc.running_units script r ++ [u])
+      by (destruct script; reflexivity).
+    rewrite PBc.delivered_count_app. f_equal. destruct u as [id op]. destruct op; reflexivity.
 Qed.
